@@ -22,6 +22,7 @@ fn run_case(toks: &[&str]) -> String {
         Some("rmm") => rmm::run_rmm(toks),
         Some("pm") => pm::run_pm(toks),
         Some("stress") => stress::run_stress(toks),
+        Some("stressp") => stress::run_stressp(toks),
         Some("savecrash") => crash::run_savecrash(toks),
         Some("savesys") => crash::run_savesys(toks),
         Some("savetrace") => crash::run_savetrace(toks),
@@ -34,7 +35,11 @@ fn run_case(toks: &[&str]) -> String {
 }
 
 fn main() {
-    std::panic::set_hook(Box::new(|_| {}));
+    if std::env::var("CVH_SHOW_PANICS").is_ok() {
+        // development aid: keep the default hook so that the panic message is printed
+    } else {
+        std::panic::set_hook(Box::new(|_| {}));
+    }
     let args: Vec<String> = std::env::args().collect();
     if args.len() >= 2 && args[1] == "savechild" {
         std::process::exit(crash::run_child(&args[2..]));
